@@ -844,7 +844,7 @@ func isMessageContent(v ssa.Value) bool {
 // does not change the inventory.
 func liftedGuards(fn *ssa.Function, depth int) []guard {
 	base := rejectGuards(fn)
-	if depth >= 2 {
+	if depth >= 3 {
 		return base
 	}
 	out := append([]guard(nil), base...)
